@@ -1,5 +1,6 @@
 import FqModel.Proto
 import FqModel.Recover
+import FqModel.Recover2
 /-! driver for C06
 
   `batch <path> <format> <f|n> <seed> <mod> <lo> <hi>` TAB `cases=<n> <obs>@<kind>*<count> …`
@@ -7,6 +8,8 @@ import FqModel.Recover
   `d <path> <mut> <format> <f|n>`  TAB `<obs>`          one decode.Decode (every panic / resource case, replays)
   `i <path> <mut> <format> <f|n>`  TAB `tree|error|panic:…|resource:…`   the interpreter path
   `core <prim> <arg> <buf bytes> <pos bits> <f|n>` TAB `ok|err:io|err:decoder|panic:…|resource:…`
+  `dprog <format> <f|n> <hex>` TAB `<class> <leaves>`    DProg correspondence (harness/cmd/c06/dprog.go): the model is
+                                                        `runDProg` of the transliterated decoder; class AND leaf list must agree
   `skip …` TAB `resource:…`                             a job given up for time/memory (counted, not a violation)
 
   <obs> of a decode = `tree|partial|error / n / k / i / v`: n formats in the group, k collected format
@@ -125,6 +128,58 @@ def coreVerdict (sp sa sb spos sf obs : String) : String :=
     else if agrees then "OK" else s!"DIVERGE model={m}"
   | _, _, _, _ => "BADOP parse"
 
+/-! ### DProg correspondence -/
+
+def hexDigit (c : Char) : Option Nat :=
+  if '0' ≤ c ∧ c ≤ '9' then some (c.toNat - '0'.toNat)
+  else if 'a' ≤ c ∧ c ≤ 'f' then some (c.toNat - 'a'.toNat + 10)
+  else none
+
+def parseHexBytes (s : String) : Option (Array Nat) :=
+  if s == "-" then some #[] else
+  let rec go : List Char → Array Nat → Option (Array Nat)
+    | [], acc => some acc
+    | [_], _ => none
+    | a :: b :: rest, acc =>
+      match hexDigit a, hexDigit b with
+      | some x, some y => go rest (acc.push (x * 16 + y))
+      | _, _ => none
+  go s.toList #[]
+
+/-- the transliterated decoders and their Format.RootArray -/
+def dprogOf : String → Option (DProg × Bool)
+  | "mp3_frame_vbri" => some (vbriProg, false)
+  | "vp9_cfm" => some (vp9Prog, true)
+  | "prores_frame" => some (proresProg, false)
+  | _ => none
+
+def leafLe (a b : Leaf) : Bool :=
+  if a.start != b.start then a.start < b.start
+  else if a.len != b.len then a.len < b.len
+  else decide (a.path ≤ b.path)
+
+def renderLeaves (ls : List Leaf) : String :=
+  if ls.isEmpty then "-" else
+  ",".intercalate ((ls.mergeSort leafLe).map fun l => s!"{l.path}:{l.start}:{l.len}")
+
+def dprogModel (p : DProg) (rootArray : Bool) (inp : Array Nat) (force : Bool) : String :=
+  let r := runDProg p (rootCtx inp rootArray) (rootSt inp.size force)
+  let cls := match r.2 with
+    | .ok _ => "ok"
+    | .panic v => (Outcome.panic v : Outcome Unit).cls
+  cls ++ " " ++ renderLeaves r.1
+
+def dprogVerdict (fmt sf hex obs : String) : String :=
+  match dprogOf fmt, parseHexBytes hex with
+  | some (p, ra), some inp =>
+    if sf != "f" && sf != "n" then "BADOP force" else
+    if obs.startsWith "badcase" then s!"BADOP {obs}" else
+    let m := dprogModel p ra inp (sf == "f")
+    let short := if m.length > 400 then (m.take 400).toString ++ "…" else m
+    if isPanic obs then knownVerdict ((obs.splitOn " ").headD "") ++ s!" ;DIVERGE model={short}"
+    else if m == obs then "OK" else s!"DIVERGE model={short}"
+  | _, _ => "BADOP dprog-parse"
+
 def stepC06 (op obs : String) : String :=
   match words op with
   | "batch" :: _ => batchVerdict obs
@@ -132,12 +187,14 @@ def stepC06 (op obs : String) : String :=
   | "fields" :: _ => batchVerdict obs
   | "types" :: _ => batchVerdict obs
   | "runs" :: _ => batchVerdict obs
+  | "near" :: _ => batchVerdict obs
   | ["d", _, _, _, _] => decodeVerdict obs
   | ["i", _, _, _, _] =>
     if isPanic obs then knownVerdict obs
     else if isResource obs || obs == "tree" || obs == "error" then "OK"
     else s!"BADOP {obs}"
   | ["core", p, a, b, pos, f] => coreVerdict p a b pos f obs
+  | ["dprog", fmt, f, hex] => dprogVerdict fmt f hex obs
   | "skip" :: _ => if isResource obs then "OK resource" else "BADOP skip"
   | _ => "BADOP op"
 
